@@ -266,6 +266,11 @@ def make_case(rng, with_faults):
             files["work/" + OBJ] = decoy
         OBJ = "work/current/../" + OBJ
         shape["path"] = "symlink+dotdot"
+    elif rng.random() < 0.04 and "/" not in OBJ:
+        # the object is reached through a symbolic link to the file itself
+        files["objs/real-" + OBJ] = files.pop(OBJ)
+        files[OBJ] = {"symlink": "objs/real-" + OBJ}
+        shape["path"] = "symlink-to-file"
     elif rng.random() < 0.05:
         OBJ = "./" + OBJ if rng.random() < 0.5 else OBJ.replace("/", "//") if "/" in OBJ else ".//" + OBJ
         shape["path"] = "dot-or-double-slash"
@@ -303,7 +308,7 @@ def make_case(rng, with_faults):
         prefix.append({"op": "match", "rule": rel, "input": pin, "type": "binary", "ret": rng.choice(["bool", "stream", "list"]), "search": rng.choice(["first", "all"])})
         pclass = pc if pclass == "none" else pclass + "," + pc
     # the same path held another object a moment ago, and was disassembled with the same rule
-    if rng.random() < 0.15 and "path" not in shape:
+    if rng.random() < 0.15 and "path" not in shape and not isinstance(files.get(OBJ), dict):
         src0, _m0 = gen.gen_asm_source(rng, sections=[m["name"] for m in meta][:4] if not shape["obj"].startswith("real") else None)
         e0 = gen.assemble(src0)
         if e0 is not None and e0 != elf:
